@@ -202,12 +202,12 @@ PROPS = {
                        "sample invariant for every rate and WithCsPoppy::select1 returns the position of the k-th open among the first len "
                        "bits, None iff k >= their number (sample bracket, rank_l1 search, rank_l2 offsets, in-word select). Kani proves "
                        "completely all word kernels and byte tables these use (find_unmatched_close_in_word, find_close_in_word, "
-                       "word_min_excess*, word_max_excess_rev, BYTE_* tables, select_in_word). Bounded only: find_close_in_word_fast (five "
-                       "(start, valid_bits) shapes, all words and excesses), whose contract the find_close proof uses as a stub.",
+                       "word_min_excess*, word_max_excess_rev, every row of the BYTE_* tables, select_in_word). find_close_in_word_fast "
+                       "is proved in Verus too (partial first byte, table-driven full bytes, bit fallback, partial last byte) with the "
+                       "byte tables as stubs carrying the per-row contracts Kani proves, so no bounded contract is used by the search proofs.",
         "trusted_base": COMMON_TRUST + ["Verus 0.2026.09.13 + Z3; vstd specs; slice::partition_point stub with its documented contract",
                                         "seam R4 between Kani-proved kernel contracts and the Verus stubs; between unit c04_build (fold form) and c04_find (bit-level meaning via lemma_fold_levels)"],
-        "assumptions": ["find_close_in_word_fast contract: bounded Kani evidence only (5 shapes)",
-                        "words.len() == ceil(len/64) and len <= u32::MAX (asserted by every constructor); searches: len <= 2^30 (i32 running excess); excess(p): len < 2^30",
+        "assumptions": ["words.len() == ceil(len/64) and len <= u32::MAX (asserted by every constructor); searches: len <= 2^30 (i32 running excess); excess(p): len < 2^30",
                         "the constructors' plumbing (moving build_bp_index's outputs into the struct fields, packing BpSelectCtx) and the "
                         "deprecated WithSelect variant (SelectIndex::jump_to + scan_select, both under contract in C01) are not extracted; "
                         "storage W monomorphised to Vec<u64> (borrowed storage runs the same text); simd (SSE4.1/NEON) builders not covered"],
